@@ -828,16 +828,19 @@ func (c *codegen) convertPendingLambdas(file ast.Node, pkg *types.Package) {
 	slices.SortFunc(pending, func(a, b *lambdaScope) int {
 		return cmp.Compare(a.label, b.label)
 	})
+	oldMap, oldInfo, oldPkg := c.importMap, c.typeInfo, c.currPkg
 	for _, f := range pending {
 		if f.compiled {
 			continue
 		}
+		c.importMap, c.typeInfo, c.currPkg = f.importMap, f.typeInfo, f.currPkg
 		if _, ok := c.lambda[c.getIdentName("", f.decl.Name.Name)]; !ok {
 			panic("ICE: lambda name doesn't match map key")
 		}
 		f.compiled = true
 		c.convertFuncDecl(file, f.decl, pkg)
 	}
+	c.importMap, c.typeInfo, c.currPkg = oldMap, oldInfo, oldPkg
 }
 
 func (c *codegen) Visit(node ast.Node) ast.Visitor {
@@ -3081,7 +3084,12 @@ func (c *codegen) newLambda(u uint16, lit *ast.FuncLit) {
 		Type: lit.Type,
 		Body: lit.Body,
 	}, u)
-	c.lambda[c.getFuncNameFromDecl("", f.decl)] = &lambdaScope{funcScope: f}
+	c.lambda[c.getFuncNameFromDecl("", f.decl)] = &lambdaScope{
+		funcScope: f,
+		importMap: c.importMap,
+		typeInfo:  c.typeInfo,
+		currPkg:   c.currPkg,
+	}
 }
 
 func (c *codegen) compile(info *buildInfo, pkg *packages.Package) error {
@@ -3111,9 +3119,11 @@ func (c *codegen) compile(info *buildInfo, pkg *packages.Package) error {
 		}
 		c.deployEndOffset = c.prog.Len()
 		emit.Opcodes(c.prog.BinWriter, opcode.RET)
-		c.convertPendingLambdas(nil, pkg.Types)
-		c.scope = nil
 	}
+	// Function literals of the global initialisers, of init() and of _deploy()
+	// functions go after these methods (_deploy starts right after _initialize).
+	c.convertPendingLambdas(nil, pkg.Types)
+	c.scope = nil
 
 	// sort map keys to generate code deterministically.
 	keys := make([]*types.Package, 0, len(info.program))
